@@ -32,11 +32,12 @@ def plan_c08(ctx):
     jobs += o.plan_sweep_jobs(ctx, "trunc", 1000, gen_files)
     jobs += o.plan_sweep_jobs(ctx, "typed", 1000, gen_files)
     jobs += o.plan_sweep_jobs(ctx, "bytes", 1000, gen_files // 4)
+    jobs += o.plan_sweep_jobs(ctx, "reencode", 1000, 0)
     jobs += o.plan_run_jobs(ctx, "C08", o.BUDGET["C08"][ctx.tier])
     res = o.run_workers(ctx, jobs)
     o.handle_deaths(ctx, res)
     agg = o.collect(ctx)
-    o.required_probes(ctx, agg, ["footer-cut-after-first-NL", "footer-cut-inside", "body2", "header2", "v1-body", "agrees_with_reference", "footer_rule_checked", "equals_spec", "version_1", "version_3", "with_leap_seconds", "scribble_v1_block", "decode_generated_ok", "decode_untyped_corruption_accepted", "v1_trailing", "pair_0_1", "dst_flag", "single_byte_corruption_accepted", "footer_big_number", "h1_typecnt_zero"])
+    o.required_probes(ctx, agg, ["footer-cut-after-first-NL", "footer-cut-inside", "body2", "header2", "v1-body", "agrees_with_reference", "footer_rule_checked", "equals_spec", "version_1", "version_3", "with_leap_seconds", "scribble_v1_block", "decode_generated_ok", "decode_untyped_corruption_accepted", "v1_trailing", "pair_0_1", "dst_flag", "single_byte_corruption_accepted", "footer_big_number", "h1_typecnt_zero", "reencoded_v1", "reencoded_v3"])
     sweeps = {}
     for path in sorted(glob.glob(os.path.join(ctx.out, "stats-*-*.json"))):
         try:
@@ -51,6 +52,7 @@ def plan_c08(ctx):
     rule = ("fault enumeration: (1) EVERY strict prefix of every one of the 894 distinct vendored IANA TZif files (tzdata 2025b, posix + right trees) and of every writer-generated file must be refused; "
             "(2) every file decoded whole must agree with the harness's reference decoder (transitions, types, designations, leap records, footer rule) and, for generated files, equal the spec; "
             "(3) the typed single-field corruption catalogue (29 kinds x up to 24 parameter values per file) must be refused and scribbling the 32-bit block of a v2+ file must not change the result; "
+            "(2b) every vendored zone re-encoded by the harness's independent writer as version 1 (where its times fit) / 2 / 3, with two string-table layouts and three kinds of 32-bit block, must decode to the original zone again; "
             "(3b) EVERY single-byte corruption (4 replacement values per byte position) of every file: whatever the library still accepts must equal the reference decoder's reading of the corrupted bytes; "
             "(4) sampled part (exploration level): generated zone specs in v1/v2/v3 with decoy 32-bit blocks, shared designation strings, indicator vectors, extreme times, then untyped corruptions (flip, torn, zero-tail) "
             "checked against the reference decoder whenever the library accepts. Non-trivial = every evaluated input (each is a distinct byte string handed to the decoder); distinct = distinct FNV digests of those byte strings / scenario texts")
